@@ -496,6 +496,39 @@ def _(M, a):
     return None
 
 
+def _sort_slice(M, a, stable):
+    sl = a[0].v if isinstance(a[0], Iface) else a[0]
+    less = a[1]
+    if sl is None or sl.len < 2:
+        return None
+    if M.mut_hook is not None:
+        M.mut_hook(M, 'sort', sl.cell, '')
+    items = sl.cell.v
+    base = sl.off
+    n = sl.len
+    ties = False
+    # insertion sort with the caller's less(i, j) on the live slice (what sort.SliceStable does for short slices)
+    for i in range(1, n):
+        j = i
+        while j > 0:
+            r = M.call_value(less, [j, j - 1])
+            if not isinstance(r, bool):
+                raise Unsupported('symbolic comparison in sort')
+            if not r:
+                if not stable and not M.call_value(less, [j - 1, j]):
+                    ties = True
+                break
+            items[base + j], items[base + j - 1] = items[base + j - 1], items[base + j]
+            j -= 1
+    if ties and not stable:
+        raise Unsupported('sort.Slice with equal elements: resulting order is algorithm specific')
+    return None
+
+
+INTR['sort.SliceStable'] = lambda M, a: _sort_slice(M, a, True)
+INTR['sort.Slice'] = lambda M, a: _sort_slice(M, a, False)
+
+
 # strings.Builder: struct{addr *Builder; buf []byte}; the state lives in field 1 as a python list
 def _sb(M, p):
     st = M.load(p)
